@@ -17,7 +17,7 @@ DEFAULTS = {
     'spike_templates': None,   # explicit list or None
     'spike_clusters': 'same',  # 'same' | 'absent' | explicit list
     'amplitudes': True,
-    'whitening': 'mixing',     # 'identity' | 'mixing' | 'absent'
+    'whitening': 'mixing',     # 'identity' | 'mixing' | 'gains' (mixing x unequal channel gains) | 'absent'
     'whitening_inv': False,    # write whitening_mat_inv.npy
     'shanks': 'absent',        # 'absent' | 'one' | 'two'
     'probes': 'absent',        # 'absent' | 'zeros' | 'two'
@@ -47,6 +47,7 @@ DEFAULTS = {
     'amp_base': 1.0,           # amplitudes are amp_base + 0.25 * k (distinct per spike)
     'sparse_cols': None,       # explicit (n_templates, n_loc) column table (may contain -1)
     'sparse_zero': None,       # per template: index of an all-zero stored column, or None
+    'feat_rows': None, 'tfeat_rows': None,     # explicit row tables for 'sparse_rows_list'
     'tsv': {},                 # extra per-cluster TSV files {name: {'field': f, 'values': {id: v}}}
     'fill': 0,
 }
@@ -232,6 +233,8 @@ def make_dataset(d, spec=None):
 
     # --- templates
     T = default_templates(nt, nsw, nc, fill, s['profile']).astype(s['template_dtype'])
+    if s['template_dtype'] == 'float64':
+        T = T * (1.0 + 2.0 ** -30)      # values that no float32 holds (same order, same ratios)
     Tclean = T
     if s['content'] == 'nan_template':
         T[nt - 1] = np.nan
@@ -286,6 +289,9 @@ def make_dataset(d, spec=None):
         truth['wm'] = None
     else:
         wm = np.eye(nc) if s['whitening'] == 'identity' else mixing_matrix(nc)
+        if s['whitening'] == 'gains':
+            # strongly unequal channel gains: unwhitening changes which channel is the largest
+            wm = wm @ np.diag([[1.0, 4.0, 0.5, 2.0, 0.25][c % 5] for c in range(nc)])
         if s['content'] == 'inf_wm':
             wm = wm.copy()
             wm[0, nc - 1] = np.inf
@@ -314,6 +320,10 @@ def make_dataset(d, spec=None):
         n_f = ns
         if s['features'] == 'sparse_rows':
             rows = np.array([i for i in range(ns) if i % 2 == 0] or [0], dtype=np.int64)
+            n_f = len(rows)
+        elif s['features'] == 'sparse_rows_list':
+            # an explicit (short, unsorted) list of stored spikes, e.g. with very large spike ids
+            rows = np.array(s['feat_rows'], dtype=np.int64)
             n_f = len(rows)
         elif s['features'] == 'sparse_rows_all':
             # a row table that lists every spike, in another order than the spike order
@@ -353,6 +363,9 @@ def make_dataset(d, spec=None):
         n_f = ns
         if s['tfeatures'] == 'sparse_rows':
             rows = np.array([i for i in range(ns) if i % 2 == 1] or [0], dtype=np.int64)
+            n_f = len(rows)
+        elif s['tfeatures'] == 'sparse_rows_list':
+            rows = np.array(s['tfeat_rows'], dtype=np.int64)
             n_f = len(rows)
         elif s['tfeatures'] == 'sparse_rows_all':
             rows = np.array(list(range(1, ns)) + [0], dtype=np.int64)
